@@ -23,9 +23,9 @@ def main(libdir, n, basis_json, maxlines, seed):
     trees = [re.findall(r"'([^']*)'", l) for l in open(os.path.join(libdir, "trees_%d.txt" % n)).read().splitlines()]
     eqs = open(os.path.join(libdir, "all_equations_%d.txt" % n)).read().splitlines()
     rng = np.random.default_rng(seed)
-    idx = list(range(len(trees)))
+    idx = list(range(min(len(trees), len(eqs))))
     if len(idx) > maxlines:
-        idx = sorted(rng.choice(len(trees), size=maxlines, replace=False).tolist())
+        idx = sorted(rng.choice(len(idx), size=maxlines, replace=False).tolist())
     lik = object.__new__(L.Likelihood)
     out = []
     pts = [(float(rng.uniform(0.4, 2.5)), [float(rng.choice([-1, 1]) * rng.uniform(0.4, 2.2)) for _ in range(6)]) for _ in range(6)]
@@ -64,7 +64,7 @@ def main(libdir, n, basis_json, maxlines, seed):
                 vals = "EXC:%s:%s" % (type(e).__name__, str(e)[:100])
             rec[stage] = vals
         out.append(rec)
-    json.dump({"points": pts, "lines": out, "nlines": len(trees)}, sys.stdout)
+    json.dump({"points": pts, "lines": out, "nlines": len(trees), "nstrings": len(eqs)}, sys.stdout)
 
 
 if __name__ == "__main__":
